@@ -251,3 +251,43 @@ Proof.
   intros b k D. unfold ex_deser in D. apply find_some in D. destruct D as [Hk _].
   repeat (destruct Hk as [<-|Hk]; [split; [discriminate|vm_compute; reflexivity]|]). destruct Hk.
 Qed.
+
+(** 10. "... with the required number of distinct KEYS", read literally (keys, not key-list
+    positions).  FULL statement: every set of an accepted transaction has M pairwise different keys
+    of its script, each with a valid signature over the transaction hash among the attached ones. *)
+Definition c16_distinct_keys : Prop :=
+  forall weak deser sdeser H Keth t addrs,
+  check_transaction_signatures deser asig sdeser (abs_verify weak) H Keth t = VAccept addrs ->
+  Forall (fun r => exists ss, get_sig deser r = inl ss /\
+     exists ks : list pubkey, NoDup ks /\ length ks = N.to_nat (ss_m ss) /\
+       forall k, In k ks -> In k (ss_keys ss) /\
+                            exists sb, In sb (ss_sigdata ss) /\ signed_by sdeser k (v_hash t) sb) (v_sigs t).
+
+(** It is REFUTED by the model of the current code (known finding C16
+    `accepted-invalid:duplicate-key-counted-twice`, reproduced on the implementation on every run):
+    GetProgramInfo accepts a verification script that repeats a public key, VerifyMultiSignature
+    counts key POSITIONS, so in the hand-written script 2-of-[K, K, K'] the one signature of K meets
+    the threshold of two; the account is the hash of that very script.  Outside scripts with a
+    repeated key the statement holds: c16_counted_signers_distinct (theorem 5). *)
+Definition dk_script : bytes :=
+  match multi_script 2 [ex_k2; ex_k2; ex_k1] 3 with Some p => p | None => [] end.
+Definition dk_tx : vtx := mkVtx false ex_h (ex_H dk_script) [mkRawSig (ex_inv [[100; 1]; [100; 1]]) dk_script].
+
+Example c16_duplicate_key_witness : ex_run dk_tx = VAccept [ex_H dk_script].
+Proof. vm_compute. reflexivity. Qed.
+
+Theorem c16_distinct_keys_refuted : ~ c16_distinct_keys.
+Proof.
+  intro F.
+  pose proof (F ex_weak ex_deser ex_sdeser ex_H ex_H dk_tx [ex_H dk_script] c16_duplicate_key_witness) as A.
+  inversion A as [|r l (ss & G & ks & ND & L & P) _]. subst.
+  vm_compute in G. injection G as <-. cbn [ss_m ss_keys ss_sigdata] in *.
+  assert (Only : forall k, In k ks -> k = ex_k2).
+  { intros k Hk. destruct (P k Hk) as (Ik & sb & Hs & (k' & pc & D & S)).
+    destruct Ik as [<-|[<-|[<-|[]]]]; try reflexivity.
+    exfalso. destruct Hs as [<-|[<-|[]]]; vm_compute in D; injection D as <- _; vm_compute in S; discriminate. }
+  destruct ks as [|x [|y [|z w]]]; try (vm_compute in L; discriminate).
+  pose proof (Only x (or_introl eq_refl)) as Ex. pose proof (Only y (or_intror (or_introl eq_refl))) as Ey.
+  subst. inversion ND as [|? ? NI _]. apply NI. left. reflexivity.
+Qed.
+Print Assumptions c16_distinct_keys_refuted.
